@@ -103,7 +103,7 @@ def twin_nodes_case(kind, res, runner_name, bname, make_backend):
             return
 
 
-CORRUPTIONS = ("flip", "truncate", "type", "drop_hmac", "drop_payload", "swap_payload_keep_hmac", "torn_payload_only")
+CORRUPTIONS = ("flip", "truncate", "type", "drop_hmac", "drop_payload", "swap_payload_keep_hmac", "torn_payload_only", "transplant")
 
 
 def disk_corruption_case(corruption, res, prewarm_hit):
@@ -120,13 +120,22 @@ def disk_corruption_case(corruption, res, prewarm_hit):
         run_sync(g, {"a": 1}, runner=runner)
         if prewarm_hit:
             run_sync(g, {"a": 1}, runner=runner)  # a verified hit on the same instance before the entry is altered
+        if corruption == "transplant":
+            run_sync(g, {"a": 2}, runner=runner)  # a second, validly signed entry (other arguments) in the same directory
         raw = cache._cache
         keys = [k for k in raw.iterkeys() if not str(k).endswith(":hmac")]
         forged = pickle.dumps({"o": {"v": 666, "tag": "forged"}})
         loads_seen = []
         orig_loads = hcache.pickle.loads
+        if corruption == "transplant" and len(keys) == 2:
+            # each entry's payload AND signature moved under the other entry's key: both are authentic, neither belongs there
+            (k0, k1) = keys
+            p0, h0, p1, h1 = raw.get(k0), raw.get(k0 + ":hmac"), raw.get(k1), raw.get(k1 + ":hmac")
+            raw.set(k0, p1); raw.set(k0 + ":hmac", h1); raw.set(k1, p0); raw.set(k1 + ":hmac", h0)
         for k in keys:
             payload = raw.get(k)
+            if corruption == "transplant":
+                continue
             if corruption == "flip":
                 raw.set(k, bytes([payload[0] ^ 0xFF]) + payload[1:])
             elif corruption == "truncate":
@@ -200,7 +209,7 @@ def run(tier, seed, functions):
     n = 25 if tier == "quick" else 400
     res = Result("C09", "DAG and gated programs with random cacheable subsets x run sequences of 3 sharing one backend (unbounded, LRU 0..2, disk) vs the uncached run; twin nodes on one function "
                  "(different outputs / emit names / swapped or renamed inputs); every disk entry x {flip, truncate, type change, missing signature, missing payload, payload swapped under an "
-                 "intact signature, torn write} with and without a prior verified hit, with a pickle.loads spy", {"programs": n})
+                 "intact signature, torn write, payload+signature of another entry transplanted} with and without a prior verified hit, with a pickle.loads spy", {"programs": n})
     rng = random.Random(seed * 577 + 9)
     tmp = tempfile.mkdtemp(prefix="hgv-c09-")
     try:
